@@ -12,13 +12,52 @@ def run(ctx):
                 "equal and unequal constants across '='); every node x 11 rule configurations; distinct non-trivial = distinct (rule, tree, node) applied")
     res.suites = ["rules (can_apply_to/apply_to vs extracted model)", "find (find_nodes/find_node/r_index vs in-order scan; vs extracted Rules.find_nodes)",
                   "oracle: snapshot of all node identities/pointers/payloads before and after can_apply_to (called twice); apply_to on a clone_from_root copy must not raise"]
-    ts = RS.standard_trees(ctx, ctx.n(500, 9000), eq_share=0.25)
+    ts = RS.standard_trees(ctx, ctx.n(300, 6000), eq_share=0.25)
     rnd = ctx.rnd
     ts += [P.const_pair(rnd) for _ in range(ctx.n(150, 2000))]
     ts += [("eq", P.const_pair(rnd), P.const_pair(rnd)) for _ in range(ctx.n(40, 500))]
     eng = RS.Engine(ctx)
     eng.run_trees(ts, WANT)
+    inplace_sequences(ctx, eng, ts)
     eng.finish()
+
+
+def inplace_sequences(ctx, eng, ts):
+    """query / rewrite IN PLACE / query again on long-lived rule instances: the answers for the tree as it now is must be
+    those of fresh rule instances (an applicability check that keeps state per node object goes stale here)"""
+    res, rnd = ctx.res, ctx.rnd
+    shared = eng.rules
+    for t in ts[:: max(1, len(ts) // ctx.n(150, 1500))]:
+        root = P.build(P.normalize(t))
+        for step in range(3):
+            nodes = P.inorder_nodes(root)
+            answers = []
+            for name, opt, rule in shared:
+                for n in nodes:
+                    try:
+                        answers.append((name + opt, n, bool(rule.can_apply_to(n))))
+                    except Exception:
+                        answers.append((name + opt, n, None))
+            fresh = {name + opt: rule for name, opt, rule in RS.rule_table()}
+            res.evaluations += 1
+            for code, n, a in answers:
+                try:
+                    b = bool(fresh[code].can_apply_to(n))
+                except Exception:
+                    b = None
+                if a != b:
+                    res.failures.append(dict(**{"class": "stale-answer"}, rule=code, input=dict(tree=P.sx_text(t), step=step, node=P.path_of(n)),
+                                             detail=f"a rule instance used before the in-place rewrite answers {a}, a fresh instance {b}, for the same node of the same tree"))
+                    return
+            cands = [(code, n) for code, n, a in answers if a and code != "BM0"]
+            if not cands:
+                break
+            code, n = rnd.choice(cands)
+            try:
+                ch = fresh[code].apply_to(n) if rnd.random() < 0.5 else dict((c, r) for c, _, r in [(a + b, None, r) for a, b, r in shared])[code].apply_to(n)
+                root = ch.result.get_root()
+            except Exception:
+                break
 
 
 def replay(payload):
